@@ -589,3 +589,119 @@ where
     }
     out
 }
+
+/// Generic evaluator of an expression program in reverse Polish notation over any `D: DualNum<F>`
+/// (C03/C04). Tokens: x<i> | k<float> | dup:<k> | add sub mul div atan2 powd | muladd |
+/// isum:<k> iprod:<k> | sq1p | powi:<n> | powf:<c> | scadd:<c> scsub:<c> scmul:<c> scdiv:<c> |
+/// any unary function name of `unary`.
+pub fn eval_rpn<F: Fl, D: DualNum<F>>(prog: &str, xs: &[D]) -> D
+where
+    for<'a> &'a D: Neg<Output = D>,
+{
+    let mut st: Vec<D> = vec![];
+    for tok in prog.split(',') {
+        let (op, arg) = match tok.split_once(':') {
+            Some((a, b)) => (a, Some(b)),
+            None => (tok, None),
+        };
+        if let Some(i) = op.strip_prefix('x') {
+            if let Ok(i) = i.parse::<usize>() {
+                st.push(xs[i].clone());
+                continue;
+            }
+        }
+        if let Some(v) = op.strip_prefix('k') {
+            if let Ok(v) = v.parse::<f64>() {
+                st.push(D::from(F::lit(v)));
+                continue;
+            }
+        }
+        match op {
+            "dup" => {
+                let k: usize = arg.unwrap().parse().unwrap();
+                let v = st[k].clone();
+                st.push(v);
+            }
+            "add" | "sub" | "mul" | "div" | "atan2" | "powd" => {
+                let b = st.pop().unwrap();
+                let a = st.pop().unwrap();
+                st.push(match op {
+                    "add" => a + b,
+                    "sub" => a - b,
+                    "mul" => a * b,
+                    "div" => a / b,
+                    "atan2" => a.atan2(b),
+                    _ => a.powd(b),
+                });
+            }
+            "addas" | "subas" | "mulas" | "divas" => {
+                let b = st.pop().unwrap();
+                let mut a = st.pop().unwrap();
+                match op {
+                    "addas" => a += b,
+                    "subas" => a -= b,
+                    "mulas" => a *= b,
+                    _ => a /= b,
+                };
+                st.push(a);
+            }
+            "muladd" => {
+                let c = st.pop().unwrap();
+                let b = st.pop().unwrap();
+                let a = st.pop().unwrap();
+                st.push(a.mul_add(b, c));
+            }
+            "isum" | "iprod" => {
+                let k: usize = arg.unwrap().parse().unwrap();
+                let items: Vec<D> = st.split_off(st.len() - k);
+                st.push(if op == "isum" {
+                    items.into_iter().sum()
+                } else {
+                    items.into_iter().product()
+                });
+            }
+            "sq1p" => {
+                let a = st.pop().unwrap();
+                st.push(a.clone() * a + F::lit(1.0));
+            }
+            "powi" => {
+                let a = st.pop().unwrap();
+                st.push(a.powi(arg.unwrap().parse().unwrap()));
+            }
+            "powf" => {
+                let a = st.pop().unwrap();
+                st.push(a.powf(F::lit(arg.unwrap().parse().unwrap())));
+            }
+            "scadd" | "scsub" | "scmul" | "scdiv" => {
+                let a = st.pop().unwrap();
+                let c = F::lit(arg.unwrap().parse().unwrap());
+                st.push(match op {
+                    "scadd" => a + c,
+                    "scsub" => a - c,
+                    "scmul" => a * c,
+                    _ => a / c,
+                });
+            }
+            f => {
+                let a = st.pop().unwrap();
+                st.push(unary::<F, D>(f, &a));
+            }
+        }
+    }
+    assert_eq!(st.len(), 1, "program leaves one value");
+    st.pop().unwrap()
+}
+
+/// kind `prog;<nvars>;<rpn>` (';' separated because the program itself contains ':' and ',')
+pub fn run_prog<F: Fl, Sh: Shape<F>>(kind: &str, pres: u64) -> CaseOut
+where
+    for<'a> &'a Sh::N: Neg<Output = Sh::N>,
+{
+    let parts: Vec<&str> = kind.split(';').collect();
+    let nvars: usize = parts[1].parse().unwrap();
+    let mut io = Io::<F>::new(pres);
+    let xs: Vec<Sh::N> = (0..nvars).map(|i| io.input::<Sh>(&format!("x{i}"))).collect();
+    let y = eval_rpn::<F, Sh::N>(parts[2], &xs);
+    io.output::<Sh>("y", &y);
+    io.out
+}
